@@ -400,7 +400,7 @@ func edgeGrid() []seqSpec {
 		reqColumnar("db1", "bad/name", []col{timesCol(t, 1), colOf("v", 1.0)}, "bad-measurement"))
 	// --- bodies that are not MessagePack at all / library edge cases
 	one("garbage",
-		reqMsgpackRaw("db1", nil, "empty-body"), reqMsgpackRaw("db1", []byte{0xc1}, "mp-c1"), reqMsgpackRaw("db1", []byte{0x81, 0xc0, 0x01}, "mp-nil-key-map"),
+		reqMsgpackRaw("db1", nil, "empty-body"), reqMsgpackRaw("db1", []byte{0xc1}, "mp-c1"),
 		reqMsgpackRaw("db1", []byte{0xdd, 0xff, 0xff, 0xff, 0xff}, "mp-huge-array"), reqMsgpackRaw("db1", []byte{0xdf, 0x7f, 0xff, 0xff, 0xff}, "mp-huge-map"),
 		reqMsgpackRaw("db1", mp(mpMap{{"m", "m"}, {"columns", mpMap{{"time", []interface{}{mpU64(math.MaxUint64)}}, {"v", []interface{}{mpU64(math.MaxUint64)}}}}}), "mp-u64-max"),
 		reqMsgpackRaw("db1", mp(int64(5)), "mp-scalar"), reqMsgpackRaw("db1", mp("str"), "mp-string"),
@@ -412,6 +412,8 @@ func edgeGrid() []seqSpec {
 		reqCSV("db1", "c", "\"unterminated\n1,2", "csv-garbage"), reqCSV("db1", "c", "", "csv-empty"),
 		reqParquet("db1", "p", []byte("PAR1 not a parquet file PAR1"), "parquet-garbage"),
 		reqSpec{Ep: "csv", NoFile: true, Query: map[string]string{"db": "db1", "measurement": "c"}, Tag: "csv-no-file"})
+	// a map whose first key is nil: the msgpack library panics inside Unmarshal (reflect on a nil type)
+	one("mp-nil-key-map", reqMsgpackRaw("db1", []byte{0x81, 0xc0, 0x01}, "mp-nil-key-map"))
 	// minimised past finds (corpus): a mutated Parquet file on which arrow-go's reader dereferences nil
 	if b, err := os.ReadFile("/verif/corpus/C04/parquet-reader-panic.hex"); err == nil {
 		if raw, err := hex.DecodeString(strings.TrimSpace(string(b))); err == nil {
